@@ -234,7 +234,14 @@ func c19stress(c *run.Ctx) {
 	for round := 0; round < rounds; round++ {
 		lazy := (round+c.Shard)%2 == 0
 		jwtAT := (round+c.Shard/2)%3 == 2
-		w := world.New(world.Opts{LazyConfig: lazy, JWTAccess: jwtAT})
+		w := world.New(world.Opts{LazyConfig: lazy, JWTAccess: jwtAT, Cfg: func(cfg *fosite.Config) {
+			if !lazy {
+				// a fully populated configuration, the way a config loader fills it: slices with spare capacity
+				cfg.SanitationWhiteList = append(make([]string, 0, 16), "code", "redirect_uri")
+				cfg.RefreshTokenScopes = append(make([]string, 0, 8), "offline", "offline_access")
+				cfg.TokenEntropy = 32
+			}
+		}})
 		w.AddClient(world.ClientSpec{ID: "pkj", Kind: "oidc", AuthMethod: "private_key_jwt", AuthSigAlg: "RS256", JWKS: world.PublicJWKS(nil, &keys.ClientRSA[0].PublicKey), RedirectURIs: []string{"https://pkj.example/cb"},
 			GrantTypes: world.AllGrants, ResponseTypes: world.AllResponseTypes, Scopes: scopePool})
 		p := &pool{}
